@@ -78,7 +78,7 @@ def run(ctx: Any, prog: Program) -> None:
     # ---- S3 ------------------------------------------------------------------------------------------------
     ok = all(isinstance(r.exc, ast.Call) and dotted(r.exc.func) == 'RootEscapeError' for r in raises) and bool(raises)
     ctx.check('C18.S3', ok, fs, raises[0] if raises else rp, '_resolve_path must raise RootEscapeError', func='RawFileSystem._resolve_path', text='raises RootEscapeError')
-    ctx.check('C18.S3', 'self.constrain_path' in ast.unparse(test), fs, guards[0], 'the escape check must be active whenever constrain_path is set (and only then)', func='RawFileSystem._resolve_path', text='gated by constrain_path')
+    ctx.shape('C18.S3', 'self.constrain_path' in ast.unparse(test), fs, guards[0], 'the escape check must be active whenever constrain_path is set (and only then)', func='RawFileSystem._resolve_path', text='gated by constrain_path')
     norm = [n for n in walk_no_nested(rp) if isinstance(n, ast.Assign) and isinstance(n.value, ast.Call) and dotted(n.value.func) in ('os.path.abspath', 'os.path.realpath')]
     ok = len(norm) == 1 and isinstance(norm[0].value.args[0], ast.Call) and dotted(norm[0].value.args[0].func) == 'os.path.join' and dotted(norm[0].value.args[0].args[0]) == 'self.path'
     ctx.check('C18.S3', ok, fs, norm[0] if norm else rp, 'the candidate must be abspath(join(self.path, path)): normalised *before* it is compared and it is that normalised value that is returned',
@@ -114,7 +114,7 @@ def run(ctx: Any, prog: Program) -> None:
         fn = raw[name]
         src = ast.unparse(fn)
         ok = 'if isinstance(name, File):' in src and 'name = self._get_data(name)' in src
-        ctx.check('C18.S2', ok, fs, fn, 'a File argument must be unwrapped to its stored relative path and then resolved like any other name', func=f'RawFileSystem.{name}', text=f'{name}: File unwrapped then resolved')
+        ctx.shape('C18.S2', ok, fs, fn, 'a File argument must be unwrapped to its stored relative path and then resolved like any other name', func=f'RawFileSystem.{name}', text=f'{name}: File unwrapped then resolved')
     # ---- S4 ------------------------------------------------------------------------------------------------
     chain = fs.methods('FileSystemChain')
     allowed = {'_get_file', 'walk_folder', 'open_str', 'open_bin', '_file_exists', 'cache_key', '_get_cache_key', 'path'}
